@@ -24,6 +24,28 @@ WITNESSES = ['positional_marker_filled_in_place', 'keyword_marker_filled', 'sign
 
 REC = []
 R = gin.REQUIRED
+
+
+class EqAll:
+  def __eq__(self, other):
+    return True
+
+  def __ne__(self, other):
+    return False
+  __hash__ = None
+
+
+class EqRaises:
+  def __eq__(self, other):
+    return self
+
+  def __bool__(self):
+    raise ValueError('The truth value of an array is ambiguous')
+  __hash__ = None
+
+
+def caller_value(i):
+  return (object(), EqAll(), EqRaises(), object())[i % 4]
 SHAPES = {}
 
 
@@ -107,22 +129,24 @@ def run_case(sname, m, npos, extra, bound_names, bscope, active, res):
   has_marker = any(v in ('rpos', 'rkw') for v in m.values()) or R in sh['dfl'].values() or extra == 'marker'
   res.case(tuple(map(repr, desc)), has_marker)
   args, kwargs, caller_vals = [], {}, {}
-  for p in sh['pos'][:npos]:
+  salt = len(bound_names) + npos + len(active)
+  for pi, p in enumerate(sh['pos'][:npos]):
     if m[p] == 'vpos':
-      v = object()
+      v = caller_value(salt + pi)
       caller_vals[p] = v
       args.append(v)
     else:
       args.append(R)
   for n in names:
     if m[n] == 'vkw':
-      v = object()
+      v = caller_value(salt + 1 + len(kwargs))
       caller_vals[n] = v
       kwargs[n] = v
     elif m[n] == 'rkw':
       kwargs[n] = R
+  extra_val = caller_value(salt + 2) if extra == 'value' else None
   if extra == 'value':
-    args.append('extra')
+    args.append(extra_val)
   elif extra == 'marker':
     args.append(R)
   # ---- model
@@ -163,7 +187,7 @@ def run_case(sname, m, npos, extra, bound_names, bscope, active, res):
     flat = []
     for v in vals:
       flat += list(v) if isinstance(v, tuple) else (list(v.values()) if isinstance(v, dict) else [v])
-    if any(x is R for x in flat):
+    if any(x is R for x in flat):  # identity only: some caller values have an unusual __eq__
       res.violation('marker_leaked', '%r: gin.REQUIRED itself was passed to the function: %r' % (desc, r), desc)
       return
   if extra == 'marker':
@@ -204,7 +228,7 @@ def run_case(sname, m, npos, extra, bound_names, bscope, active, res):
       gv = got['kw'].get('z', '<absent>') if sh['vk'] else '<absent>'
       if 'z' in expect:
         how, v = expect['z']
-        if (gv is not v) if how == 'id' else (gv != v):
+        if (gv is not v) if how == 'id' else (isinstance(gv, (EqAll, EqRaises)) or gv != v):
           res.violation('kwargs_value', '%r: **kw z received %r, model %r' % (desc, gv, v), desc)
           return
         if m['z'] == 'rkw':
@@ -214,7 +238,7 @@ def run_case(sname, m, npos, extra, bound_names, bscope, active, res):
         return
       continue
     how, v = expect[n]
-    if (got[n] is not v) if how == 'id' else (got[n] != v):
+    if (got[n] is not v) if how == 'id' else (isinstance(got[n], (EqAll, EqRaises)) or got[n] != v):
       res.violation('wrong_value', '%r: parameter %s received %r, model %s %r' % (desc, n, got[n], how, v), desc)
       return
     if m[n] == 'rpos':
@@ -223,7 +247,8 @@ def run_case(sname, m, npos, extra, bound_names, bscope, active, res):
       res.w('keyword_marker_filled')
     elif m[n] == 'omit' and sh['dfl'].get(n) is R:
       res.w('signature_required_filled')
-  if sh['va'] and tuple(got['args']) != (('extra',) if extra == 'value' else ()):
+  if sh['va'] and (len(got['args']) != (1 if extra == 'value' else 0) or
+                   (extra == 'value' and got['args'][0] is not extra_val)):
     res.violation('varargs_value', '%r: *args received %r' % (desc, got['args']), desc)
   if sh['cls']:
     res.w('class_shape')
